@@ -11,6 +11,18 @@ CLAIMED = {
  "C02": dict(tech=S, ref="4/C02",
    text="Model checking, stateless shape: for every position of the same alphabet as C01 the 30 cell numbers are computed and compared bit for bit with the shifted depth-29 number (this implies the property for all pairs of depths). Exact integer oracle, exhaustive over the alphabet.",
    note="Trusted: nothing but integer comparison; positions outside the alphabet are not covered."),
+ "C03": dict(tech=S, ref="4/C03",
+   text="Model checking, stateless shape: every cell of depths 0..5 (quick) / 0..8 (thorough) and the border/corner class cells of each of the 12 base cells at every deeper depth to 29 go through every accessor (centre, 5x5 interior offsets, the 4 vertices through 4 accessors, edge paths n=1,3,4 x 2 directions x 4 starts, grids n=1,4; border points nudged inwards by 1e-3 cell) and must hash back / sit at the lattice positions of the reference model; hash_with_dxdy is run on every position of the C01 alphabet x 30 depths (containment, finite offsets in [0,1], position recovered within 1e-13 rad, sph_coo inverse, agreement with hash off borders); out-of-range hashes must panic on all 9 accessors at every depth.",
+   note="Trusted: R1/R2 reference models; inward nudge of 1e-3 cell for border points; depth-uniformity for interior cells above the exhaustive depths."),
+ "C04": dict(tech=S, ref="4/C04",
+   text="Model checking, stateless shape: for every cell of depths 0..10 (quick) / 0..12 (thorough) and for all border/corner class cells (plus their neighbours) of depths up to 29, neighbours(h) (with and without centre), neighbour(h, dir) for the 9 directions and the symmetry of the relation are compared with the integer lattice adjacency model (cells sharing a canonical vertex; label = which vertices are shared). Exact oracle; out-of-range hashes must panic at every depth.",
+   note="Trusted: lattice adjacency model R2 (exact seam identification), self-checked for symmetry and the 8/7/6 neighbour counts at depths 0..3."),
+ "C17": dict(tech=S, ref="4/C17",
+   text="Model checking, stateless shape: all nodes of the 2^-4 / 2^-7 plane lattice (+ border classes of 6 depths) are used (a) as sphere positions with 5x5 ulp nudges and 7 longitude turns for proj (range, sign, Calabretta-Roukema reference), unproj(proj) and base_cell_from_proj_coo (depth-0 containment), (b) as plane points (x and x-8, 3x3 ulp nudges) for proj(unproj); out-of-domain latitudes and ordinates must panic.",
+   note="Trusted: R1 reference formulae; any image of a seam point or of a pole is accepted; round trips are judged by |dlat|, |dlon|cos(lat) and angular distance."),
+ "C18": dict(tech=S, ref="4/C18",
+   text="Model checking over finite domains: for each z-order implementation the crate can select (get_zoc per depth, LARGE LUT/XOR/BMI) in two builds (with and without BMI2): all (i,j) < 2^d for d <= 8; medium class structured (quick) / all 2^32 pairs at depth 16 and all pairs at depths 9..12 (thorough); large class byte-wise + 1/2-bit patterns squared at every depth 17..29; ij2h, i02h, oj2h, h2ij/ij2i/ij2j against a loop reference. uniq/uniq_ivoa and inverses for all hashes of depth <= 8 / 11 and class hashes to depth 29; depth > 29 rejected.",
+   note="Trusted: reference bit interleaving loop; injectivity follows from the checked left inverses. BMI2 leg skipped (and reported) if the CPU lacks it."),
 }
 props = [json.loads(l) for l in open(os.path.join(V, "properties.jsonl"))]
 m = {
